@@ -43,6 +43,9 @@ pub struct WorldSpec {
     /// markers that additionally list required attributes (still restricted / unrestricted as per `markers`)
     #[serde(default)]
     pub marker_required_attrs: BTreeMap<String, Vec<String>>,
+    /// marker status per denomination (1 proposed, 2 finalized, 3 active (default), 4 cancelled)
+    #[serde(default)]
+    pub marker_status: BTreeMap<String, i32>,
 }
 
 #[derive(Clone, Debug, Serialize, Deserialize, PartialEq)]
